@@ -24,10 +24,14 @@ type vC07CorpusRR struct {
 	TTL    uint32 `json:"ttl"`
 	IP     string `json:"ip"`
 	Target string `json:"target"`
+	// RRSIG: type covered and Labels relative to the owner's label count
+	Covered     string `json:"covered"`
+	LabelsDelta int    `json:"labels_delta"`
 }
 
 func (c vC07CorpusRR) spec() vC07RRSpec {
 	s := vC07RRSpec{owner: vC07Parse(c.Owner), rrtype: dns.StringToType[c.Type], class: c.Class, ttl: c.TTL, target: vC07Parse(c.Target)}
+	s.covered, s.labelsDelta = dns.StringToType[c.Covered], c.LabelsDelta
 	if s.class == 0 {
 		s.class = dns.ClassINET
 	}
@@ -64,6 +68,11 @@ type vC07CorpusUnit struct {
 	Referral string         `json:"referral"`
 	Zone     string         `json:"zone"`
 	Owners   []string       `json:"owners"`
+	// kind "sections": the positive answer handed to clearAdditional and the request's EDNS (0 none, 1 OPT, 2 OPT+DO), CD, keep-extra mode
+	Answer []vC07CorpusRR `json:"answer"`
+	Edns   int            `json:"edns"`
+	CD     bool           `json:"cd"`
+	Keep   int            `json:"keep"`
 }
 
 func vC07UnitCorpus(t *testing.T, local []net.IP, emit func(map[string]any)) {
@@ -179,6 +188,15 @@ func vC07UnitCorpus(t *testing.T, local []net.IP, emit func(map[string]any)) {
 				owners = append(owners, vC07Parse(o))
 			}
 			vC07ZoneFilterOne(fmt.Sprintf("corpus#%d-zonefilter", ci), vC07Parse(c.Zone), owners, emit)
+		case "sections":
+			conv := func(l []vC07CorpusRR) []vC07RRSpec {
+				var out []vC07RRSpec
+				for _, e := range l {
+					out = append(out, e.spec())
+				}
+				return out
+			}
+			vC07SectionsOne(res, fmt.Sprintf("corpus#%d-sections", ci), vC07Parse(c.QName), conv(c.Answer), conv(c.Ns), conv(c.Extra), c.Edns, c.CD, c.Keep, emit)
 		default:
 			t.Fatalf("corpus/C07/unit.json: unknown kind %q", c.Kind)
 		}
